@@ -44,7 +44,7 @@ RULE = (
 ASSUMPTIONS = [
     "process death only (os._exit): no power loss, no torn pages; bytes handed to write() reach the file",
     "writers that bypass builtins.open/os.mkdir/os.replace/os.rename (e.g. os.open + os.write) would only get 'before operation' crash points",
-    "the later process is a forked child with no state for that directory; thorough adds real freshly spawned interpreters for a sample",
+    "the later process is a forked child with no state for that directory; in a quarter of the scenarios every 40th crash point is judged by a freshly spawned interpreter instead",
 ]
 
 COUNT = "verif-count15"
@@ -83,6 +83,8 @@ def scenarios(draw):
         "reader_split": draw(st.sampled_from(["same", "auto"])),
         "seed_old": draw(st.integers(0, 99)),
         "seed_new": draw(st.integers(100, 199)),
+        # every k-th crash point is judged by a really fresh interpreter
+        "spawn_every": draw(st.sampled_from([0, 0, 0, 40])),
     }
 
 
@@ -316,6 +318,22 @@ def do_search(cachedir, split, seed, q, overwrite=False, cache_only=False, crash
     return _fork(fn)
 
 
+def do_search_spawn(cachedir, split, seed, q, cache_only=False):
+    """Same as a reading do_search, but in a freshly spawned interpreter."""
+    import subprocess
+
+    arg = json.dumps({"cachedir": cachedir, "split": split, "seed": seed, "q": [list(map(list, q[0])), list(q[1]), q[2]], "cache_only": cache_only})
+    p = subprocess.run(
+        [os.environ.get("VERIF_PYTHON", sys.executable), "-m", "vlib.c15reader", arg],
+        capture_output=True, text=True, timeout=600,
+        cwd=os.path.dirname(os.path.dirname(os.path.dirname(os.path.abspath(__file__)))),
+    )
+    try:
+        return p.returncode, json.loads(p.stdout.strip().splitlines()[-1])
+    except Exception:
+        return p.returncode or 5, {"raised": f"unparsable reader output: {p.stdout[-200:]} {p.stderr[-300:]}"}
+
+
 def list_crash_points(log):
     pts = []
     for k, (kind, path, nbytes) in enumerate(log):
@@ -385,8 +403,13 @@ def run_scenario(spec, state=None, points=None, stop_at_first=True):
                 f" {log[k]}" if k < len(log) else " (none: complete store)"
             ) + (f" after {b} bytes" if b is not None else "")
             pv = []
-            # --- a later, fresh process on the same directory
-            code, r = do_search(c, reader_split, spec["seed_new"] + 1000, q_new)
+            # --- a later, fresh process on the same directory (a forked child
+            # that never saw it; for some points a freshly spawned interpreter)
+            spawn = spec.get("spawn_every") and (npoints % spec["spawn_every"] == 1)
+            if spawn:
+                code, r = do_search_spawn(c, reader_split, spec["seed_new"] + 1000, q_new)
+            else:
+                code, r = do_search(c, reader_split, spec["seed_new"] + 1000, q_new)
             if code != 0 or r is None or "raised" in (r or {}):
                 pv.append(f"{desc}: a later process on the directory fails: {r if r else 'exit ' + str(code)}")
             else:
@@ -414,7 +437,7 @@ def run_scenario(spec, state=None, points=None, stop_at_first=True):
             nontrivial = first_mut < k <= last_mut or (b is not None)
             if state is not None:
                 cp = {"scenario": sh, "kind": scenario, "split": split, "reader_split": spec["reader_split"], "point": [k, b], "op": log[k] if k < len(log) else None}
-                o = Outcome([], nontrivial, [f"scenario={scenario}", f"split={split}", "inside_write" if b is not None else "between_ops"])
+                o = Outcome([], nontrivial, [f"scenario={scenario}", f"split={split}", "inside_write" if b is not None else "between_ops"] + (["reader=spawned_interpreter"] if spawn else ["reader=forked"]))
                 state.record(cp, o)
             if pv:
                 viol += pv
